@@ -19,6 +19,9 @@ type searchLinker struct {
 	symbols  *linker.Symbols
 	Reporter reporter.Reporter
 	resolver fileSource
+
+	// files being linked, outermost first, to detect import cycles
+	linking []string
 }
 
 func newLinker(src fileSource, errs reporter.Reporter) *searchLinker {
@@ -59,6 +62,16 @@ func (ll *searchLinker) resolveAll(ctx context.Context, filenames []string) (lin
 
 func (ll *searchLinker) resolveFile(ctx context.Context, filename string) (linker.File, error) {
 	ctx = log.WithField(ctx, "askFilename", filename)
+	for _, inProgress := range ll.linking {
+		if inProgress == filename {
+			return nil, NewCircularDependencyError(ll.linking, filename)
+		}
+	}
+	ll.linking = append(ll.linking, filename)
+	defer func() {
+		ll.linking = ll.linking[:len(ll.linking)-1]
+	}()
+
 	result, err := ll.resolver.findFileByPath(ctx, filename)
 	if err != nil {
 		return nil, fmt.Errorf("findFileByPath: %w", err)
